@@ -1571,6 +1571,11 @@ def external_attr(interp, mod: ModRef, attr):
                 i.path.assume(z3.And(r >= 0, r < to_z3(a)))
                 return r
             return Builtin("np.random.choice", choice)
+        h = interp.hooks.get("external")
+        if h:
+            r = h(interp, name, attr)
+            if r is not NotImplemented:
+                return r
         raise Undecided(f"numpy.random.{attr}")
     if name == "copy":
         if attr == "deepcopy":
